@@ -91,6 +91,20 @@ class References:
       sn_with_o.line = s
       s._add_reference(self, "paths")
 
+  def _update_references(self, oldref, newref, key_in_ref):
+    super()._update_references(oldref, newref, key_in_ref)
+    # a virtual link became real: which of link/complement each step reads
+    # is decided by the overlap this path states, not by the virtual link
+    # (which may have been created by another path, without overlap)
+    if isinstance(newref, gfapy.line.edge.Link) and not newref.virtual:
+      links = self._refs.get("links", [])
+      for i, (f, t, cigar) in enumerate(self._compute_required_links()):
+        if i < len(links) and links[i].line is newref:
+          if newref.is_compatible_direct(f, t, cigar):
+            links[i].orient = "+"
+          elif newref.is_compatible_complement(f, t, cigar):
+            links[i].orient = "-"
+
   def _backreference_keys(self, ref, key_in_ref):
     if ref.record_type == "L":
       return ["links"]
